@@ -114,6 +114,8 @@ func chanRecvOf(info *types.Info, e ast.Expr, field *types.Var) bool {
 }
 
 func runC11(w *World, r *Report) {
+	r.Rule("shadow", "no := in an inner scope re-declares a same-typed variable of the function that is read afterwards (or a named result): the value computed there would be lost", 1)
+	shadowRule(w, r, "shadow", func(fi *FuncInfo) bool { return fi.Pkg.Types.Name() == "util" })
 	r.Rule("alive", "the stream goroutines cannot panic on a failed call's nil result or on a short byte slice handed to a helper", 2)
 	streamAliveRule(w, r, "alive")
 	r.Rule("observers", "methods that formatting calls implicitly (String, Error, …) leave the value unchanged", 1)
@@ -587,15 +589,21 @@ func streamAliveRule(w *World, r *Report, rule string) {
 		if fi.Decl.Body == nil || !inUtil(fi) || strings.HasSuffix(w.Fset.Position(fi.Decl.Pos()).Filename, "_test.go") {
 			continue
 		}
-		has := false
+		has, counted := false, false
 		if fi.Decl.Type.Params != nil {
 			for _, f := range fi.Decl.Type.Params.List {
-				if isByteSlice(fi.Pkg.TypesInfo.TypeOf(f.Type)) {
+				t := fi.Pkg.TypesInfo.TypeOf(f.Type)
+				if isByteSlice(t) {
 					has = true
+				}
+				// a slice that comes with an integer (the count conn.Read returned) carries a contract between
+				// the two that only the caller's context gives: such helpers are not decided on arbitrary input
+				if isIntType(t) {
+					counted = true
 				}
 			}
 		}
-		if has {
+		if has && !counted {
 			funcs = append(funcs, fi)
 		}
 	}
@@ -606,6 +614,11 @@ func streamAliveRule(w *World, r *Report, rule string) {
 	r2.Rule("alloc", "", 0)
 	decideTotality(w, r2, funcs, nil)
 	for _, o := range r2.Obs {
+		// the question is what a helper does with the slice it is HANDED (an encoding or a frame of any
+		// length); buffers it owns (a prefix array in a struct field) have lengths this rule does not know
+		if o.Verdict != VOK && !strings.Contains(o.Diag, "len(P)") {
+			continue
+		}
 		o.Instance = o.Rule + ":" + o.Instance
 		o.Rule = rule
 		r.Add(o)
